@@ -224,6 +224,15 @@ def k_tosparse(c, rng, q, pat):
         # documented error returns: wrong nnz
         i2 = buf(nnz + 1, np.uint16, pat)
         out["mask_to_coo_bad"] = c.mask_to_coo(m.astype(np.int8), i2, i2.copy(), buf(ns, np.int32, pat))
+        # a signed mask with negative flags next to the positive ones, index arrays sized for the positive entries (as
+        # sparseframe.from_data_mask sizes them): accepted or refused, never written beyond the arrays
+        mneg = m.astype(np.int8)
+        mneg[m & (rng.random_sample(m.shape) < 0.3)] = -1
+        npos = int((mneg > 0).sum())
+        if npos > 0:
+            i3 = buf(npos, np.uint16, pat)
+            j3 = buf(npos, np.uint16, pat)
+            out["mask_to_coo_signed"] = c.mask_to_coo(mneg, i3, j3, buf(ns, np.int32, pat))
     return out
 
 
